@@ -373,6 +373,20 @@ def decompress (adv : List Nat) (m : CompCert) (decoded : Option Bytes) (certOk 
       else if certOk out then (.ok, some (m.ulen + 4))
       else (.badCert, some (m.ulen + 4))
 
+/-- how many decompressed bytes `decompressCert` *requests from the decoder* (the "bytes pulled" counter of
+the abstract reader): `io.ReadFull` into the `ulen`-byte buffer pulls `min(ulen, |stream|)`, the one-byte
+probe pulls one more if the stream goes on; nothing is pulled when the message is refused beforehand or the
+decoder fails to open. A decoder is never drained: what a stream inflates to beyond `ulen + 1` bytes is never
+asked for (decompression bombs cost the decoder's own window, not the stream's size). -/
+def decompressPulled (adv : List Nat) (m : CompCert) (decoded : Option Bytes) : Nat :=
+  if !adv.contains m.alg then 0
+  else if m.ulen > maxHandshakeCert then 0
+  else if !(m.alg = 1 ∨ m.alg = 2 ∨ m.alg = 3) then 0
+  else
+    match decoded with
+    | none => 0
+    | some out => if out.length ≤ m.ulen then out.length else m.ulen + 1
+
 /-! ## record-level retry counter and the post-handshake read loop -/
 
 /-- what one record looks like to `readRecordOrCCS` after decryption (decryption itself is inherited). -/
@@ -554,6 +568,69 @@ def parseECHExt (e : Bytes) : Except EchErr EchExt :=
               match readVec16 s with
               | none => .error .malformed
               | some (payload, _) => .ok (.outer kdf aead cid encap payload)
+
+/-! ### ECH across a HelloRetryRequest: what the first hello records, what the second may do -/
+
+/-- `echServerContext` as far as the second hello looks at it. `hpke = false` is a nil `hpkeContext`. -/
+structure EchCtx where
+  inner : Bool
+  hpke : Bool
+  configId : Nat := 0
+  kdf : Nat := 0
+  aead : Nat := 0
+  deriving DecidableEq, Repr
+
+/-- the contexts `processECHClientHello` can produce: an inner-type hello leaves every other field unset
+(no HPKE context); an accepted outer hello carries the HPKE context it was opened with. -/
+def EchCtx.WF (c : EchCtx) : Prop := c.inner = !c.hpke
+
+instance (c : EchCtx) : Decidable c.WF := by unfold EchCtx.WF; infer_instance
+
+inductive Ech1 where
+  | abort (alert : Nat)        -- 50 decode_error, 47 illegal_parameter
+  | noCtx                      -- handshake goes on with the outer hello, no ECH state
+  | ctx (c : EchCtx)
+  deriving DecidableEq, Repr
+
+/-- `readClientHello` + `processECHClientHello` on the first hello. `haveKeys`: the server has ECH keys;
+`opens`: some key opens the payload (HPKE, not modelled); `innerOk`: `decodeInnerClientHello` accepts. -/
+def echFirstHello (haveKeys opens innerOk : Bool) (ext : Bytes) : Ech1 :=
+  if ext.isEmpty then .noCtx else
+  match parseECHExt ext with
+  | .error .invalid => .abort 47
+  | .error .malformed => .abort 50
+  | .ok .inner => .ctx { inner := true, hpke := false }
+  | .ok (.outer kdf aead cid _ _) =>
+    if !haveKeys then .noCtx
+    else if !opens then .noCtx
+    else if !innerOk then .abort 47
+    else .ctx { inner := false, hpke := true, configId := cid, kdf := kdf, aead := aead }
+
+inductive Ech2 where
+  | proceed                    -- on to the key-share / illegal-change checks (inherited)
+  | abort (alert : Nat)        -- 109 missing_extension, 50 decode_error, 47 illegal_parameter
+  | decrypt (payload : Bytes)  -- `decryptECHPayload(hs.echContext.hpkeContext, …)` with a non-nil context
+  | panic                      -- `hpkeContext.Open` on a nil context
+  deriving DecidableEq, Repr
+
+/-- the ECH block of `doHelloRetryRequest` on the second hello. `bothWays = true` is the code: a switch of
+extension type in *either* direction is refused; `false` keeps only `inner` after a non-inner first hello
+(the weakening a seeded change made). -/
+def echSecondHelloG (bothWays : Bool) (ctx : Option EchCtx) (ext : Bytes) : Ech2 :=
+  match ctx with
+  | none => .proceed
+  | some c =>
+    if ext.isEmpty then .abort 109 else
+    match parseECHExt ext with
+    | .error _ => .abort 50
+    | .ok .inner => if !c.inner then .abort 50 else .proceed
+    | .ok (.outer kdf aead cid encap payload) =>
+      if bothWays && c.inner then .abort 50
+      else if kdf ≠ c.kdf ∨ aead ≠ c.aead ∨ cid ≠ c.configId ∨ !encap.isEmpty then .abort 47
+      else if c.hpke then .decrypt payload
+      else .panic
+
+def echSecondHello : Option EchCtx → Bytes → Ech2 := echSecondHelloG true
 
 /-- `outerAAD := bytes.Replace(hello[4:], payload, zeros, 1)`: the slice `hello[4:]` of the raw
 ClientHello message (`outer.original`). -/
